@@ -51,6 +51,10 @@ class NativeK(KBase):
         self.arrays: dict = {}
         self._n = 0
         self.ints = {k: v for k, v in self.model.items() if isinstance(v, int) and "[" not in k}
+        # the symbolic machine epsilon chosen by the solver selects the precision of the replay
+        if self.model.get("machine_eps", 0) and float(self.model["machine_eps"]) > 1e-10:
+            self.real_t = np.float32
+            self.tol = 1e-4
 
     # -- inputs --------------------------------------------------------------------------
     def ext(self, name, lo=1):
